@@ -61,7 +61,9 @@ def run(oc, tier, seed, model_available, escalate):
         root = os.path.join(d, "root")
         eu.write_tree(root, tree)
         ecc = os.path.join(d, "ecc.txt")
-        if eu.generate(P, root, ecc) != "0":
+        with fx.OpsRecorder(27) as rec27:      # the (27,9) code of the index records
+            grc = eu.generate(P, root, ecc)
+        if grc != "0":
             oc.count("excluded: generation failed")
             continue
         data = open(ecc, "rb").read()
@@ -87,6 +89,9 @@ def run(oc, tier, seed, model_available, escalate):
         if len(data) < 20000:
             lines.append("genecc %s %s" % (hx(data[:bounds[0][0]]), " ".join(parts)))
             impl.append("%s %s" % (hx(data), " ".join("%s:%d" % (k.decode(), p) for k, p in recs)))
+            # the whole index file, parities included (the file C15_chain_* starts from)
+            lines.append("genidx %s %s ; %s" % (hx(data[:bounds[0][0]]), " ".join(parts), rec27.enc_table()))
+            impl.append(hx(idx))
         # ---- (b) destroy markers, damage the index, recover
         dm = bytearray(data)
         spans = [(p, 10 if k == b"1" else 5) for k, p in want]
